@@ -93,7 +93,10 @@ def scan_loop_rules(R, oid):
             elif isinstance(o.ops[0], (ast.GtE, ast.Eq)):
                 found_t.append(t)
                 found_lab[t.id] = False
-    crit = [t for t in pr.cfg.nodes if t.kind == 'test' and ast.unparse(t.ast) in ('typ & 1 == 1', 'typ & 1', 'typ % 2 == 1', 'typ % 2', 'typ & 1 != 0')]
+    ODD = {'typ & 1 == 1': True, 'typ & 1': True, 'typ % 2 == 1': True, 'typ % 2': True, 'typ & 1 != 0': True, 'typ % 2 != 0': True,
+           'typ & 1 != 1': False, 'typ & 1 == 0': False, 'typ % 2 == 0': False, 'typ % 2 != 1': False}      # edge on which the type is critical (odd)
+    crit = [t for t in pr.cfg.nodes if t.kind == 'test' and ast.unparse(t.ast) in ODD]
+    odd = ODD[ast.unparse(crit[0].ast)] if crit else True
     ign = [t for t in pr.cfg.nodes if t.kind == 'test' and ast.unparse(t.ast) == 'ignore_critical']
     inst = PARSE + ' :: unknown critical element raises DecodeError, non-critical is skipped'
     probs = []
@@ -106,14 +109,14 @@ def scan_loop_rules(R, oid):
         else:
             r = rs[0]
             # reachable only via: not found (False), odd (True), not ignore (False)
-            for (t, lab, what) in ((found_t[0], not found_lab[found_t[0].id], 'a recognised field'), (crit[0], True, 'a non-critical (even) type'),
+            for (t, lab, what) in ((found_t[0], not found_lab[found_t[0].id], 'a recognised field'), (crit[0], odd, 'a non-critical (even) type'),
                                    (ign[0], False, 'ignore_critical=True')):
                 if r.id in pr.cfg.reachable(removed_edges={(t.id, lab)}):
                     probs.append((f'DecodeError can be raised for {what}', r.ast))
             # and it is unavoidable there
-            rm = {(crit[0].id, False), (ign[0].id, True)}
+            rm = {(crit[0].id, not odd), (ign[0].id, True)}
             rr = (reach_from_succ(pr.cfg, ign[0], False, removed_edges=rm, follow_exc=False) &
-                  reach_from_succ(pr.cfg, crit[0], True, removed_edges=rm, follow_exc=False)) - {crit[0].id, ign[0].id}
+                  reach_from_succ(pr.cfg, crit[0], odd, removed_edges=rm, follow_exc=False)) - {crit[0].id, ign[0].id}
             if any(n.kind != 'raise' for n in pr.cfg.nodes if n.id in rr and n.kind in ('stmt', 'test', 'for')) or r.id not in rr:
                 probs.append(('an unrecognised critical element does not always raise', ign[0].ast))
             if not pr.cfg.path_exists(found_t[0], crit[0]):
@@ -220,17 +223,19 @@ def bounds_rule(R, oid, qual, length_vars, sink_kinds):
         validated = set()
         for t in cx.cfg.nodes:
             if t.kind == 'test' and isinstance(t.ast, ast.Compare) and len(t.ast.ops) == 1 and 'len(' in ast.unparse(t.ast) \
-                    and isinstance(t.ast.ops[0], (ast.Lt, ast.LtE, ast.Gt, ast.GtE, ast.NotEq)) and (_raises(cx, t, True) or _raises(cx, t, False)):
+                    and isinstance(t.ast.ops[0], (ast.Lt, ast.LtE, ast.Gt, ast.GtE, ast.NotEq, ast.Eq)) and (_raises(cx, t, True) or _raises(cx, t, False)):
                 validated |= {y.id for y in ast.walk(t.ast) if isinstance(y, ast.Name) and y.id in length_vars}
         # bounds tests: ordering / inequality comparison mentioning a derived var whose failing edge raises; the other side is the
         # buffer size or a validated length counter
         good_edges = set()
         for t in cx.cfg.nodes:
-            if t.kind == 'test' and isinstance(t.ast, ast.Compare) and len(t.ast.ops) == 1 and isinstance(t.ast.ops[0], (ast.Lt, ast.LtE, ast.Gt, ast.GtE, ast.NotEq)) \
+            if t.kind == 'test' and isinstance(t.ast, ast.Compare) and len(t.ast.ops) == 1 and isinstance(t.ast.ops[0], (ast.Lt, ast.LtE, ast.Gt, ast.GtE, ast.NotEq, ast.Eq)) \
                     and any(isinstance(y, ast.Name) and y.id in derived for y in ast.walk(t.ast)) \
                     and ('len(' in ast.unparse(t.ast) or any(isinstance(y, ast.Name) and y.id in validated and y.id != var for y in ast.walk(t.ast))):
                 for lab in (True, False):
-                    if raising_edge(cx, t, lab, None, P) if False else _raises(cx, t, lab):
+                    if isinstance(t.ast.ops[0], (ast.Eq, ast.NotEq)) and lab != isinstance(t.ast.ops[0], ast.NotEq):
+                        continue        # an equality test bounds the length on its "equal" edge only: the raise is on the other one
+                    if _raises(cx, t, lab):
                         good_edges.add((t.id, not lab))
         for (sn, x, kind) in sinks:
             if not cx.cfg.path_exists(dn, sn):
